@@ -1,6 +1,7 @@
 import Crusta.Model.Cli
 import Crusta.Proofs.Oracle
 import Crusta.Proofs.CliCompose
+import Crusta.Proofs.CliFile
 
 /-!
 # C05 — the command-line tools print exactly the right answer, or none (property theorems)
@@ -214,5 +215,24 @@ theorem dispatched_encoder_admissible (t : Task) (σ : Sem) (enc : Option String
 /-- non-vacuity: `SE-PR` with the default encoding reaches the admissibility branch, `se-pr` does not -/
 example : dispatchEncoder .PR none (decide (s_SEPR = s_SEPR)) = some .auxADM ∧
     dispatchEncoder .PR none (decide (lower s_SEPR = s_SEPR)) = some .auxCO := by decide
+
+/-- **from the bytes of the instance file to the answer** (ICCMA'23 format, the one the wrapper
+forces): for every byte sequence the reader accepts, the store it builds presents exactly the
+declared graph (arguments `0..n-1`, the declared attacks, repeated lines included), and for every
+accepted problem string, `--encoding` value, certificate flag and `-a` string accepted by the
+reader's argument look-up, the dispatched solver program exists, never panics on sound replies and
+returns what the problem asks for on that graph -/
+theorem cli_on_readable_file (bs : List UInt8) (fw : IO.IccmaFw) (hfile : IO.readIccma bs = .ok fw)
+    (s : Str) (t : Task) (σ : Sem) (hread : readProblem s = some (t, σ))
+    (enc : Option String) (cfg : Cfg)
+    (henc : ∀ k, dispatchEncoder σ enc (decide (s = s_SEPR)) = some k → cfg.enc = k)
+    (cert : Bool) (argStr : Str) (a : Nat) (harg : t ≠ .SE → IO.iccmaArgOfStr fw.n argStr = some a)
+    (w : World) (hb : w.Bounded)
+    (hfuel : cfg.fuel ≥ fuelFor (1 + (Store.ofIccma fw.n fw.atts).view.maxId.getD 0)) :
+    (∀ x, (Store.ofIccma fw.n fw.atts).g.live x = true ↔ x < fw.n) ∧
+    (∀ x y, (Store.ofIccma fw.n fw.atts).g.att x y ↔ (x, y) ∈ fw.atts) ∧
+    ∃ p, entryProg (dispatchSolver t σ) cfg (Store.ofIccma fw.n fw.atts).view (entryOf t cert [a]) = some p ∧
+      wp False p w (fun ans _ => ProblemOK t σ (Store.ofIccma fw.n fw.atts).g (entryOf t cert [a]) ans) :=
+  cli_on_iccma_file bs fw hfile s t σ hread enc cfg henc cert argStr a harg w hb hfuel
 
 end Crusta.C05
